@@ -50,6 +50,9 @@ EDITS = [
     ("H12 smc: the two halves of every key split swapped (Importance / ImportanceK run_smc and run_csmc, the SampleDistribution face)",
      "genjax/_src/inference/smc.py",
      "        key, sub_key = jrandom.split(key)\n", "        sub_key, key = jrandom.split(key)\n", ["C26", "C30"]),
+    ("H13 hmc: the two halves of the key split swapped (momenta from one half, the leapfrog updates from the other)",
+     "genjax/_src/inference/requests/hmc.py",
+     "        key, sub_key = jrand.split(key)\n", "        sub_key, key = jrand.split(key)\n", ["C28"]),
     ("H10 distribution.edit_regenerate: new value computed into differently named locals", "genjax/_src/generative_functions/distributions/distribution.py",
      "            w, new_v = self.random_weighted(key, *primals)\n            incremental_w = w - trace.get_score()\n            old_v = trace.get_retval()\n            new_trace = DistributionTrace(self, primals, new_v, w)",
      "            old_v = trace.get_retval()\n            fresh_score, fresh_value = self.random_weighted(key, *primals)\n            new_v, w = fresh_value, fresh_score\n            new_trace = DistributionTrace(self, primals, fresh_value, fresh_score)\n            incremental_w = fresh_score - trace.get_score()",
